@@ -280,7 +280,11 @@ func (propC18) Gen(r *Rng, run uint64, tier string) *Plan {
 	}
 	if !cli && !raceMode() && r.Bool(pressureProb) {
 		// hundreds or thousands of other queries ran in this process first
-		p.Tags["cache_pressure"] = fmt.Sprint([]int{140, 140, 300, 300, 1100, 4200}[r.Intn(6)])
+		sizes := []int{140, 140, 300}
+		if tier == "thorough" {
+			sizes = []int{140, 300, 300, 1100, 4200}
+		}
+		p.Tags["cache_pressure"] = fmt.Sprint(sizes[r.Intn(len(sizes))])
 	}
 	if raceMode() && len(contA) > 0 && r.Bool(0.4) {
 		// Race phase only: let the failure and cleanup paths run concurrently
@@ -327,6 +331,9 @@ func (propC18) HistorySample(p *Plan, i int64) bool {
 // and templates over an empty inventory: whatever the process caches by text is
 // driven past its capacity before the plan's own query runs.
 func c18Pressure(t *testing.T, p *Plan, n int, st *Stats) {
+	// one container with one line, so that per-line code (template functions, filters) runs
+	tiny := World{Containers: []Container{{ID: "feedfacef00d", Names: []string{"/pressure"}, Image: "busybox", State: "running", Status: "Up",
+		Log: []Record{{T: 1, TS: p.Params.End - 1, Msg: []byte("c0r0 level=info k=1 y z w x")}}}}}
 	for i := 0; i < 5*n; i++ {
 		k := fmt.Sprintf("%d_%d", p.Run%1000, i/5)
 		var q string
@@ -336,13 +343,13 @@ func c18Pressure(t *testing.T, p *Plan, n int, st *Stats) {
 		case 1:
 			q = `{} |~ "x` + k + `"`
 		case 2:
-			q = `{container=~"z` + k + `.*"}`
+			q = `{container=~"z` + k + `.*|pressure"}`
 		case 3:
 			q = `{} | label_format q="{{ .container }}` + k + `"`
 		default:
 			q = `count_over_time({} |= "w` + k + `" [10s])`
 		}
-		ip := &Plan{Property: "C18", Harness: "engine", Query: q, Params: p.Params, Variants: []Variant{{FragMode: "whole"}}}
+		ip := &Plan{Property: "C18", Harness: "engine", World: tiny, Query: q, Params: p.Params, Variants: []Variant{{FragMode: "whole"}}}
 		o := Exec(t, ip, 0, ExecOpts{})
 		if st != nil {
 			st.Execs++
